@@ -104,7 +104,7 @@ fn run_random<K: KeyT, V: ValT>(a: &Args) {
         let hm = if a.m.contains_key("hm") { a.num("hm", 0) as u8 } else { (run % 3) as u8 };
         let nkeys = if a.m.contains_key("nkeys") { a.num("nkeys", 40) as u32 } else { [12u32, 24, 40, 60][(run / 3 % 4) as usize] };
         let mut g = gen::Gen {
-            cfg: gen::GenCfg { nkeys, set: a.flag("set"), two: a.flag("two"), hm, limits: a.flag("limits"), zst: K::NAME == "zst", par: a.flag("par"), serde: a.flag("serde") },
+            cfg: gen::GenCfg { nkeys, set: a.flag("set"), two: a.flag("two"), hm, limits: a.flag("limits"), zst: K::NAME == "zst", par: a.flag("par"), serde: a.flag("serde"), entry: a.flag("entry") },
             rng: SmallRng::seed_from_u64(seed.wrapping_mul(1000003).wrapping_add(run)),
         };
         rebase_live();
@@ -144,7 +144,7 @@ fn run_faults<K: KeyT, V: ValT>(a: &Args) {
         let hm = (si % 3) as u8;
         let nkeys = [12u32, 24, 40][(si / 3 % 3) as usize];
         let mk = |sd: u64| gen::Gen {
-            cfg: gen::GenCfg { nkeys, set: a.flag("set"), two: a.flag("two"), hm, limits: false, zst: K::NAME == "zst", par: false, serde: false },
+            cfg: gen::GenCfg { nkeys, set: a.flag("set"), two: a.flag("two"), hm, limits: false, zst: K::NAME == "zst", par: false, serde: false, entry: false },
             rng: SmallRng::seed_from_u64(sd),
         };
         let mut g = mk(seed.wrapping_mul(7777).wrapping_add(si));
